@@ -231,3 +231,6 @@ def run(ctx):
     for inst in ctx.rules[-1].instances:
         inst["rule"] = "C09-R4"
         inst["key"] = inst["key"].replace("C04-R4|", "C09-R4|", 1)
+    if ctx.tier == "thorough" and ctx.config == "workspace":
+        from .. import witness
+        witness.run(ctx, 'C09-W', 'mutating server helpers need the write guard (type level)', {'PatchNeedsWriteGuard': 'event_patch(req, &mut *read_guard)', 'SyncNeedsWriteGuard': 'sync_account(packet, &mut *read_guard)'})
